@@ -16,6 +16,9 @@ regenerated lock table; the lines handled here connect the harness to that table
   really ran, replayed as lock-event programs from the table on the model's transition system
   under strict writer preference with 3 pseudo-random schedules: the real threads finished, the
   model must not get stuck either (and the programs must pass `respectsOrder`);
+* `conc pair seed=<n> progs=<opsA>,<opsB> => finished`: run `matrix` — one line per pair of public ops run
+  against each other on the real Chain (each op twice per thread); replayed like `conc sim`;
+  `conc matrix ops=… pairs=… => ok`: the node is where it was after all pairs and validates;
 * `conc selftest <which> => hang|finished`: tiny two-thread programs run by the harness on the real
   parking_lot lock objects of a Chain (inversion, ordered control, read-after-read with and without a
   writer arriving in between) against exhaustive exploration of the model — this is the check that
@@ -110,7 +113,17 @@ def handle (st : St) (args : List String) (impl : String) : St × Verdict :=
     match GV.Gen.lockTable.lookup op with
     | some p => (st, cmpModel (opClass p) impl)
     | none => (st, .diff "op-not-in-lock-table")
-  | "sim" :: rest =>
+  | "orphans" :: rest =>
+    -- orphan pool beyond MAX_ORPHAN_SIZE under concurrent deliveries: bound, conservation, cascade,
+    -- final state (the state itself goes through the `chain` domain)
+    match kvArg rest "round", kvArg rest "blocks" with
+    | some _, some _ => (st, cmpModel "ok" impl)
+    | _, _ => (st, .unknown)
+  | "matrix" :: rest =>
+    match kvArg rest "ops", kvArg rest "pairs" with
+    | some _, some _ => (st, cmpModel "ok" impl)
+    | _, _ => (st, .unknown)
+  | "sim" :: rest | "pair" :: rest =>
     match (kvArg rest "seed").bind String.toNat?, kvArg rest "progs" with
     | some seed, some ps =>
       let threads := (ps.splitOn ",").map (fun t => (t.splitOn "+").filter (fun x => !x.isEmpty))
